@@ -39,6 +39,9 @@ theorem tank_poll_high (c : Tank.Cfg) (h : Int) :
     absTank "do_repeat_high" (tankPollHigh c h) = some (Tank.pollHigh c h) := by
   unfold tankPollHigh Tank.pollHigh; decide_tree
 
+/-- the height the polls compare is the sensor's value itself (published on the way), not a rounded or filtered copy -/
+theorem tank_height_is_sensor_value : tankHeight = ["publish tank_height", "return sensor value"] := by decide
+
 /-! non-vacuity: the generated function really takes different branches -/
 example : tankPollLow ⟨5, 10, 30, 70⟩ 9 0 = ["tell Filtration halt", "tell self halt"] ∧ tankPollLow ⟨5, 10, 30, 70⟩ 35 0 = ["tell self normal"]
     ∧ tankPollLow ⟨5, 10, 30, 70⟩ 20 0 = ["delay 10 do_repeat_low"] := by decide
